@@ -93,7 +93,12 @@ theorem closeInv_step (P : Params) (s s' : St) (l : Label) (o : Option Obs)
   | callClose t0 =>
     l4_step_cases hs
     · apply closeInv_setUpc s (hi := hi) <;> simp_all [needsDead, needsClosed]
-    · exact hi
+    · apply closeInv_setUpc s (hi := hi) <;> simp_all [needsDead, needsClosed]
+  | connectFailed =>
+    l4_step_cases hs <;>
+      first
+      | exact ⟨fun h => ⟨rfl, (hi.ret h).2⟩, hi.dead, fun _ _ => rfl⟩
+      | exact ⟨hi.ret, hi.dead, hi.closed⟩
   | _ =>
     l4_step_cases hs <;>
       first
